@@ -14,8 +14,9 @@ duplicate-free lists (only membership is ever observed).
 (insertion index of an empty table is 0); the unrepaired code raises IndexError
 there, which the harness reports as a violation.
 
-Loops: `for` loops are structural recursion; the binary search is well-founded
-recursion on `top - bottom`; the two `while` loops that shrink something
+Loops: `for` loops are structural recursion; the binary search carries fuel = table
+length (an upper bound of `top - bottom`, which shrinks every round; the lemma
+`insertionIndex_spec` does not depend on how fuel ends); the two `while` loops that shrink something
 (`_refine_downcheck`, `ordered_covering`) carry fuel = size + 2 and return
 `none` / `.error .fuel` if it ran out (never observed; it would be a
 non-terminating loop in Python).
@@ -64,16 +65,16 @@ def Entry.gen (e : Entry) : Nat := generality e.key e.mask
 g - 1` (an `int`, -1 when g = 0), so `pg != generality` is `pg + 1 ≠ g`,
 `pg < generality` is `pg + 1 < g` and `gg(e) <= generality` is `gg(e) + 1 ≤ g`. -/
 
-def bsLoop (T : List Entry) (g : Nat) (bottom top pos : Nat) : Nat :=
-  match T[pos]? with
-  | none => pos      -- unreachable (pos < len is maintained); Python would raise IndexError
-  | some e =>
-    if _h : e.gen + 1 ≠ g ∧ bottom < pos ∧ pos < top then
-      if e.gen + 1 < g then bsLoop T g pos top (pos + (top - pos) / 2)
-      else bsLoop T g bottom pos (bottom + (pos - bottom) / 2)
-    else pos
-termination_by top - bottom
-decreasing_by all_goals omega
+def bsLoop (T : List Entry) (g : Nat) : Nat → Nat → Nat → Nat → Nat
+  | 0, _, _, pos => pos          -- unreachable: fuel ≥ top - bottom, which shrinks every round
+  | fuel + 1, bottom, top, pos =>
+    match T[pos]? with
+    | none => pos      -- unreachable (pos < len is maintained); Python would raise IndexError
+    | some e =>
+      if e.gen + 1 ≠ g ∧ bottom < pos ∧ pos < top then
+        if e.gen + 1 < g then bsLoop T g fuel pos top (pos + (top - pos) / 2)
+        else bsLoop T g fuel bottom pos (bottom + (pos - bottom) / 2)
+      else pos
 
 /-- `while pos < len(table) and gg(table[pos]) <= generality: pos += 1` on `table[pos:]` -/
 def scanFwd (g : Nat) : List Entry → Nat → Nat
@@ -83,7 +84,7 @@ def scanFwd (g : Nat) : List Entry → Nat → Nat
 def insertionIndex (T : List Entry) (g : Nat) : Nat :=
   if T.isEmpty then 0          -- fixes/c04-empty-table.diff
   else
-    let pos := bsLoop T g 0 T.length (T.length / 2)
+    let pos := bsLoop T g T.length 0 T.length (T.length / 2)
     scanFwd g (T.drop pos) pos
 
 /-! ### _Merge -/
